@@ -695,6 +695,8 @@ func extractMethodHTTPInfo(service *protogen.Service, method *protogen.Method) m
 		}
 
 		path = annotations.BuildHTTPPath(servicePath, methodPath)
+		// Every variable of the full template (base path included) must be declared exactly once.
+		pathParams = uniquePathParams(annotations.ExtractPathParams(path))
 	} else {
 		path = fmt.Sprintf("/%s/%s", service.Desc.Name(), method.Desc.Name())
 	}
@@ -704,6 +706,19 @@ func extractMethodHTTPInfo(service *protogen.Service, method *protogen.Method) m
 	}
 
 	return methodHTTPInfo{path: path, httpMethod: httpMethod, pathParams: pathParams}
+}
+
+// uniquePathParams removes repeated variable names, keeping the first occurrence.
+func uniquePathParams(params []string) []string {
+	seen := make(map[string]bool, len(params))
+	out := make([]string, 0, len(params))
+	for _, p := range params {
+		if !seen[p] {
+			seen[p] = true
+			out = append(out, p)
+		}
+	}
+	return out
 }
 
 // buildPathParameters creates OpenAPI path parameters from path variable names.
